@@ -1,6 +1,7 @@
 package main
 
 import (
+	"context"
 	"fmt"
 	"os"
 	"path/filepath"
@@ -8,6 +9,7 @@ import (
 	"sync"
 	"time"
 
+	"github.com/markusressel/fan2go/internal"
 	"github.com/markusressel/fan2go/internal/configuration"
 	"github.com/markusressel/fan2go/internal/fans"
 	"github.com/markusressel/fan2go/internal/sensors"
@@ -373,6 +375,9 @@ func init() {
 		if ctx.Batch == 1%ctx.Of && !ctx.Abort {
 			c19SameHangingCommand(ctx, dir)
 		}
+		if ctx.Batch == 2%ctx.Of && !ctx.Abort {
+			c19SensorMonitor(ctx, dir)
+		}
 	})
 }
 
@@ -484,5 +489,76 @@ func c19SameHangingCommand(ctx *Ctx, dir string) {
 			ctx.Inconclusive(fmt.Sprintf("same-hanging-command via %s: slowest call took %.2fs (grey zone)", via, worst.Seconds()))
 		}
 		ctx.Nontrivial("same-hanging-command|" + via)
+	}
+}
+
+// c19SensorMonitor: the caller side - the daemon's sensor monitor polling a command sensor whose command is fast, slow
+// but healthy (slower than the polling rate), failing, hanging beyond the deadline, or leaving a grandchild on stdout.
+// The monitor must neither panic nor stop polling; a healthy command's readings must keep arriving.
+func c19SensorMonitor(ctx *Ctx, dir string) {
+	sdir := filepath.Join(dir, "monitor")
+	_ = os.MkdirAll(sdir, 0755)
+	configuration.CurrentConfig.TempRollingWindowSize = 2
+	modes := []struct {
+		name, script string
+		healthy      bool
+		runFor       time.Duration
+	}{
+		{"fast", "echo 42000", true, 600 * time.Millisecond},
+		{"slow-but-healthy", "sleep 0.25; echo 42000", true, 1500 * time.Millisecond},
+		{"failing", "exit 3", false, 600 * time.Millisecond},
+		{"sleeping-beyond-deadline", "exec sleep 6", false, 2800 * time.Millisecond},
+		{"grandchild-holds-stdout", "(sleep 6 &) ; echo 42000; exit 0", false, 1800 * time.Millisecond}, // output or an error, either is fine
+	}
+	var paths []string
+	for i, m := range modes {
+		p := filepath.Join(sdir, fmt.Sprintf("sensor-%d.sh", i))
+		_ = os.WriteFile(p, []byte("#!/bin/sh\n"+m.script+"\n"), 0755)
+		paths = append(paths, p)
+	}
+	for i, m := range modes {
+		ctx.LogCase(map[string]interface{}{"class": "sensor-monitor:process-died:" + m.name})
+		sn, err := sensors.NewSensor(configuration.SensorConfig{ID: uniqueId("c19mon"), Cmd: &configuration.CmdSensorConfig{Exec: paths[i]}})
+		if err != nil {
+			ctx.Inconclusive("sensor monitor: " + err.Error())
+			return
+		}
+		sn.SetMovingAvg(20000)
+		cctx, cancel := context.WithCancel(context.Background())
+		done := make(chan string, 1)
+		go func() {
+			msg := ""
+			defer func() {
+				if p := recover(); p != nil {
+					msg = fmt.Sprintf("panic: %v", p)
+				}
+				done <- msg
+			}()
+			_ = internal.NewSensorMonitor(sn, 100*time.Millisecond).Run(cctx)
+		}()
+		stopped := ""
+		select {
+		case msg := <-done:
+			stopped = "the monitor ended on its own: " + msg
+		case <-time.After(m.runFor):
+		}
+		avg := sn.GetMovingAvg()
+		cancel()
+		if stopped == "" {
+			select {
+			case <-done:
+			case <-time.After(10 * time.Second):
+				stopped = "the monitor did not stop 10 s after its context was cancelled"
+			}
+		}
+		ctx.Eval(1)
+		switch {
+		case stopped != "":
+			ctx.Violation("sensor-monitor:"+m.name, fmt.Sprintf("polling rate 100 ms, command %q: %s", m.script, stopped), nil)
+		case m.healthy && !(avg > 20000):
+			ctx.Violation("sensor-monitor:healthy-readings-do-not-arrive:"+m.name, fmt.Sprintf("polling rate 100 ms, command %q: smoothed value still %.0f after %.1f s", m.script, avg, m.runFor.Seconds()), nil)
+		default:
+			ctx.Nontrivial("sensor-monitor|" + m.name)
+		}
 	}
 }
